@@ -77,9 +77,14 @@ for f in sorted(glob.glob(os.path.join(V, 'seeded', 'C*_*', 'meta.json'))):
     first = runs[0]['exit'] if runs else None
     fr = m.get('final_run', {})
     what = m['what_and_what_it_needs'].split('\n')[0][:120].replace('|', '/')
-    obl = ', '.join(sorted(set(o.split('#')[0] for o in fr.get('failed_obligations', [])))[:3])
     inp = 'concrete input' if any('no-failing-input-found' not in l for l in fr.get('violation_lines', [])) else 'no-failing-input-found'
+    if not fr and runs:
+        # never re-run since its import: the first run is the last run
+        fr = dict(exit=runs[0]['exit'], failed_obligations=runs[0].get('failed_obligations', []), head='import', violation_lines=['x'] if runs[0].get('violation_lines') else [])
     now = {1: 'caught', 0: 'MISSED', 2: 'undecided'}.get(fr.get('exit'), 'not run')
+    if fr.get('head'):
+        now += ' (@%s)' % fr['head']
+    obl = ', '.join(sorted(set(o.split('#')[0] for o in fr.get('failed_obligations', [])))[:3])
     if 'not_a_violation_of_the_property_as_stated' in m and fr.get('exit') == 0:
         now = 'not reported (deliberately: see meta.json)'
     rows.append('| %s | %s | %s | %s | %s | %s |' % (m['id'], what, {1: 'caught', 0: 'MISSED', 2: 'undecided'}.get(first, '-'), now, obl, inp if fr.get('exit') == 1 else ''))
@@ -87,5 +92,5 @@ p = os.path.join(V, 'seeded', 'README.md')
 s = open(p).read()
 a = s.index('| id |')
 b = s.index('\nStrengthenings triggered')
-hdr = '| id | change (first line of the author\'s note) | first run | at HEAD %s | failed obligations (unit/function/kind) | replay |\n|---|---|---|---|---|---|\n' % head
+hdr = '| id | change (first line of the author\'s note) | first run | last run (@ commit of /repo it ran against; current HEAD %s) | failed obligations (unit/function/kind) | replay |\n|---|---|---|---|---|---|\n' % head
 open(p, 'w').write(s[:a] + hdr + '\n'.join(rows) + '\n' + s[b:])
